@@ -73,6 +73,23 @@ def opt_take(I, st, depth, callee, args, body, ln):
     return TOP
 
 
+def opt_replace(I, st, depth, callee, args, body, ln):
+    r = args[0]
+    if isinstance(r, Ref):
+        old = I.load(st, r.alloc, r.path)
+        I.store_to(st, r.alloc, r.path, En({1: (args[1],)}), False, body, ln)
+        return old
+    return TOP
+
+
+def opt_insert(I, st, depth, callee, args, body, ln):
+    r = args[0]
+    if isinstance(r, Ref):
+        I.store_to(st, r.alloc, r.path, En({1: (args[1],)}), False, body, ln)
+        return Ref(r.alloc, r.path + (("v", 1), 0), True) if False else TOP
+    return TOP
+
+
 def opt_is_some(I, st, depth, callee, args, body, ln):
     v = deref(I, st, args[0])
     mn, pl, known = opt_parts(v)
@@ -590,6 +607,8 @@ def deref_ref(I, st, depth, callee, args, body, ln):
 
 TABLE = {
     "core::option::Option::<T>::take": opt_take,
+    "core::option::Option::<T>::replace": opt_replace,
+    "core::option::Option::<T>::insert": opt_insert,
     "core::option::Option::<T>::is_some": opt_is_some,
     "core::option::Option::<T>::is_none": opt_is_none,
     "core::option::Option::<T>::as_ref": opt_as_ref,
